@@ -62,7 +62,7 @@ func isSearchCall(in ssa.Instruction) *ssa.Call {
 		return nil
 	}
 	g := call.Call.StaticCallee()
-	if g != nil && g.Pkg != nil && (g.Pkg.Pkg.Path() == "strings" || g.Pkg.Pkg.Path() == "bytes") && strings.HasPrefix(g.Name(), "Index") && len(call.Call.Args) == 2 {
+	if g != nil && g.Pkg != nil && (g.Pkg.Pkg.Path() == "strings" || g.Pkg.Pkg.Path() == "bytes") && (strings.HasPrefix(g.Name(), "Index") || g.Name() == "Cut") && len(call.Call.Args) == 2 {
 		return call
 	}
 	return nil
@@ -155,6 +155,11 @@ func quotedValueChecks(c *core.Ctx, s *core.Sink, f *ssa.Function, what string) 
 				shape := false
 				for _, r := range core.Returns(f) {
 					if !x.Stop.Dominates(r.Block()) || len(r.Results) == 0 {
+						continue
+					}
+					// Cut form: what is returned is the text before the separator
+					if ex, ok := r.Results[0].(*ssa.Extract); ok && ex.Tuple == ssa.Value(call) && ex.Index == 0 {
+						shape = true
 						continue
 					}
 					sl, ok := r.Results[0].(*ssa.Slice)
@@ -363,6 +368,47 @@ var ruleLabelPaths = &core.Rule{ID: "R12.10", Min: 5,
 					}
 				}
 				s.Check(okAll, key, c.Pos(call.Pos()), "returned as it is", fmt.Sprintf("a label found by %s is not what %s returns: the declaration is dropped and the plain-text guess reported instead", g.Name(), sn.Name()))
+				// and an empty answer (nothing declared) leads to the plain sniffer's guess
+				key2 := fmt.Sprintf("%s: empty answer of %s falls through to the plain sniffer", core.FName(sn), g.Name())
+				ev2 := newEval(c)
+				ev2.Env = fde.Env{call: constant.MakeString("")}
+				exits2, err := ev2.Walk(call.Block(), prev, nil, 2)
+				if err != nil || len(exits2) == 0 {
+					s.Und(key2, c.Pos(call.Pos()), fmt.Sprintf("the sniffer does not evaluate with an empty answer pinned (%v)", err))
+					continue
+				}
+				okFall, undFall := true, false
+				body := getPlain(c).g
+				for _, x := range exits2 {
+					if x.Ret == nil {
+						okFall = false
+						continue
+					}
+					rv := x.Ret.Results[0]
+					if ph, ok := rv.(*ssa.Phi); ok {
+						for k, p := range ph.Block().Preds {
+							if p == x.From {
+								rv = ph.Edges[k]
+							}
+						}
+					}
+					rc, isCall := rv.(*ssa.Call)
+					switch {
+					case isCall && (rc.Call.StaticCallee() == cm.plain || rc.Call.StaticCallee() == body):
+					case isCall && rc.Call.StaticCallee() != nil && core.InMod(rc.Call.StaticCallee()):
+						undFall = true // another helper of the module: not followed
+					default:
+						okFall = false
+					}
+				}
+				switch {
+				case !okFall:
+					s.Bad(key2, c.Pos(call.Pos()), fmt.Sprintf("with nothing declared %s does not return the plain sniffer's guess: text without a declaration loses its charset parameter (or gets the empty answer)", sn.Name()))
+				case undFall:
+					s.Und(key2, c.Pos(call.Pos()), "the value returned with nothing declared comes from another helper of the module")
+				default:
+					s.OK(key2, c.Pos(call.Pos()), "returns the plain sniffer's result")
+				}
 			}
 		}
 		// B: label returns lie on the success side
@@ -409,7 +455,8 @@ var ruleLabelPaths = &core.Rule{ID: "R12.10", Min: 5,
 									bad = "the label is returned on the path where the decoder reported an error"
 								}
 							case core.IsConstInt(k, -1):
-								if call, ok := other.(*ssa.Call); ok && isSearchCall(call) != nil && truth {
+								// (a label that does not use the position may well be "everything, no separator found")
+								if call, ok := other.(*ssa.Call); ok && isSearchCall(call) != nil && truth && usesValue(r.Results[0], call, 0) {
 									bad = fmt.Sprintf("the label is returned on the path where %s found nothing (-1)", call.Call.StaticCallee().Name())
 								}
 							}
@@ -450,3 +497,28 @@ var ruleLabelPaths = &core.Rule{ID: "R12.10", Min: 5,
 			s.Und("attribute reading", c.Pos(cm.html.Pos()), "no call of (*html.Tokenizer).TagAttr below the HTML sniffer: where the attribute values go is not decided")
 		}
 	}}
+
+// usesValue: v is computed from x (slice bounds and operands, arithmetic, conversions; four levels of operands).
+func usesValue(v, x ssa.Value, depth int) bool {
+	if v == x {
+		return true
+	}
+	if depth > 6 {
+		return false
+	}
+	in, ok := v.(ssa.Instruction)
+	if !ok {
+		return false
+	}
+	switch in.(type) {
+	case *ssa.Slice, *ssa.BinOp, *ssa.Convert, *ssa.ChangeType, *ssa.Phi, *ssa.UnOp, *ssa.Extract:
+	default:
+		return false
+	}
+	for _, op := range in.Operands(nil) {
+		if *op != nil && usesValue(*op, x, depth+1) {
+			return true
+		}
+	}
+	return false
+}
